@@ -1,5 +1,88 @@
-"""C20 thorough: the full pipeline around the .paux file (placeholder until the renderer drivers exist)."""
+"""C20, pipeline level: documents rendered by the real pipeline write <job>.paux; another document compiled in the
+same directory restores every OTHER document's labels (Compile.parse's loop) and its \\ref's resolve to the saved
+number and location; a damaged sibling file never makes the run fail and is healed by the next run of its owner."""
+import os
+import pickle
+import re
+import shutil
+import tempfile
+
+from ..render import compile_file
+
+DOC = r'''\documentclass{article}
+\begin{document}
+\section{First %(job)s}
+\section{Title of %(job)s}\label{sec:%(job)s}
+Text.
+\end{document}
+'''
+MAIN = r'''\documentclass{article}
+\begin{document}
+\section{Main}\label{sec:main}
+%(refs)s
+\end{document}
+'''
 
 
-def run(chk):
-    chk.extra['pipeline'] = 'not run (renderer-level pipeline is exercised by C13/C14 drivers)'
+def run(chk, renderer='HTML5'):
+    d = tempfile.mkdtemp(prefix='verif-c20p-')
+    try:
+        # sibling job names chosen so that their file names are related to the main job's name
+        jobs = ['xintro', 'book-intro', 'intro2', 'other', 'intr']
+        for j in jobs:
+            with open(os.path.join(d, j + '.tex'), 'w') as f:
+                f.write(DOC % {'job': j})
+            compile_file(j + '.tex', d, renderer)
+            if not os.path.exists(os.path.join(d, j + '.paux')):
+                chk.violation('pipeline:nosave', 'rendering %s.tex wrote no %s.paux' % (j, j))
+                return
+            data = pickle.load(open(os.path.join(d, j + '.paux'), 'rb'))
+            lab = data.get(renderer, {}).get('sec:' + j)
+            chk.case(['pipeline-save', j, renderer], True)
+            if not lab or lab.get('ref') != '2' or 'Title of' not in str(lab.get('title')) or not lab.get('url'):
+                chk.violation('pipeline:saved-attrs', '%s.paux holds %r for sec:%s (expected number 2, its title and a url)' % (j, lab, j))
+        with open(os.path.join(d, 'intro.tex'), 'w') as f:
+            f.write(MAIN % {'refs': '\n'.join(r'[%s:\ref{sec:%s}]' % (j, j) for j in jobs)})
+
+        def check_main(expect, tag):
+            try:
+                tex = compile_file('intro.tex', d, renderer, {('files', 'split-level'): -10})
+            except BaseException as ex:
+                chk.violation('pipeline:raise:' + tag, 'compiling intro.tex next to %s raised %s: %s' % (sorted(os.listdir(d)), type(ex).__name__, ex))
+                return
+            labels = tex.ownerDocument.context.labels
+            html = open(os.path.join(d, 'intro', 'index.html'), encoding='utf-8').read()
+            for j in jobs:
+                chk.case(['pipeline-restore', j, tag, renderer], True,
+                         {'pipeline': 'intro.tex references sec:%s saved by %s.tex' % (j, j)} if j == 'xintro' and tag == 'clean' else None)
+                m = re.search(r'\[%s:(.*?)\]' % re.escape(j), html, re.S)
+                shown = re.sub(r'<[^>]*>', '', m.group(1)).strip() if m else None
+                href = re.search(r'href="([^"]*)"', m.group(1)) if m else None
+                if j in expect:
+                    if 'sec:' + j not in labels:
+                        chk.violation('pipeline:not-restored', 'labels of %s.paux were not restored while compiling intro.tex (%s)' % (j, tag))
+                    elif shown != '2' or not href or j not in href.group(1):
+                        chk.violation('pipeline:ref', '\\ref{sec:%s} rendered as %r href %r; expected number 2 linking into %s' % (j, shown, href and href.group(1), j))
+                else:
+                    if 'sec:' + j in labels:
+                        chk.violation('pipeline:restored-damaged', 'labels of the damaged %s.paux appeared (%s)' % (j, tag))
+            if 'sec:main' in [k for k in labels if False]:
+                pass
+        check_main(set(jobs), 'clean')
+        # the document's own file is skipped by the loop but rewritten at the end
+        own = pickle.load(open(os.path.join(d, 'intro.paux'), 'rb'))
+        if 'sec:main' not in own.get(renderer, {}):
+            chk.violation('pipeline:own', 'intro.paux does not hold sec:main after the run: %r' % own)
+        # damage one sibling: truncated file
+        p = os.path.join(d, 'xintro.paux')
+        good = open(p, 'rb').read()
+        open(p, 'wb').write(good[:len(good) // 2])
+        check_main(set(jobs) - {'xintro'}, 'truncated-sibling')
+        open(p, 'wb').write(b'')
+        check_main(set(jobs) - {'xintro'}, 'empty-sibling')
+        # the owner's next run heals it
+        compile_file('xintro.tex', d, renderer)
+        check_main(set(jobs), 'healed')
+        chk.extra['pipeline'] = 'rendered %d sibling documents + main document 4 times with %s' % (len(jobs), renderer)
+    finally:
+        shutil.rmtree(d, ignore_errors=True)
